@@ -474,6 +474,75 @@ theorem Handler_fn_preapprove_invoice_malformed (w0 : WireString → List Nat) (
   · rw [h1]; simp only [Rs.okOr, Rs.pure_eq, Rs.bind_ok, h2]; rfl
 end More
 
+/-! ### placeholders and one more signing arm -/
+section Placeholders
+variable {Node ChannelId Txid WithSize Sha256 Transaction PaymentHash Channel TypedSignature : Type}
+
+/-- `CheckOutpoint` is a placeholder in the source (`FIXME - make the call on the node!`): it answers `is_buried = true` for
+    every outpoint, on every channel, **without consulting the node or the chain tracker** (the definition has no external
+    at all); `LockOutpoint` likewise does nothing.  Stated so that a property that would rely on the signer's answer here
+    (funding depth) finds the fact, and so that the day the call is made the theorem breaks and is re-examined. -/
+theorem Handler_fn_check_outpoint (self : ChannelHandler Node ChannelId) (m : CheckOutpoint Txid) :
+    ChannelHandler.do_handle__CheckOutpoint self m = .ok { is_buried := true } := rfl
+
+theorem Handler_fn_lock_outpoint (self : ChannelHandler Node ChannelId) (m : LockOutpoint Txid) :
+    ChannelHandler.do_handle__LockOutpoint self m = .ok ⟨⟩ := rfl
+
+/-- `SignLocalHtlcTx2`: `sign_holder_htlc_tx_phase2` with the message's transaction, input, commitment number, direction,
+    expiry, amount and payment hash, in that order -/
+theorem Handler_fn_sign_local_htlc_tx2 (w0 : WithSize → Transaction) (sha0 : Sha256 → List Nat) (ph : List Nat → PaymentHash)
+    (sgn : Channel → Transaction → Nat → Nat → Bool → Nat → Nat → PaymentHash → Rs.M (Channel × TypedSignature))
+    (wc : {T : Type} → Node → ChannelId → (Channel → Rs.M (Channel × T)) → Rs.M T) (tb : TypedSignature → BitcoinSignature)
+    (self : ChannelHandler Node ChannelId) (m : SignLocalHtlcTx2 WithSize Sha256) :
+    ChannelHandler.do_handle__SignLocalHtlcTx2 w0 sha0 ph sgn wc tb self m
+      = wc self.node self.channel_id (ChannelHandler.do_handle__SignLocalHtlcTx2__with_channel_1 w0 sha0 ph sgn m) >>= fun s =>
+        .ok { signature := tb s } := rfl
+
+theorem Handler_fn_sign_local_htlc_tx2_closure (w0 : WithSize → Transaction) (sha0 : Sha256 → List Nat) (ph : List Nat → PaymentHash)
+    (sgn : Channel → Transaction → Nat → Nat → Bool → Nat → Nat → PaymentHash → Rs.M (Channel × TypedSignature))
+    (m : SignLocalHtlcTx2 WithSize Sha256) (chan : Channel) :
+    ChannelHandler.do_handle__SignLocalHtlcTx2__with_channel_1 w0 sha0 ph sgn m chan
+      = sgn chan (w0 m.tx) m.input m.per_commitment_number m.offered m.cltv_expiry m.htlc_amount_msat (ph (sha0 m.payment_hash)) := by
+  unfold ChannelHandler.do_handle__SignLocalHtlcTx2__with_channel_1
+  cases sgn chan (w0 m.tx) m.input m.per_commitment_number m.offered m.cltv_expiry m.htlc_amount_msat (ph (sha0 m.payment_hash)) with
+  | error e => rfl
+  | ok r => obtain ⟨c, x⟩ := r; rfl
+end Placeholders
+
+/-! ### chain-tracker arms of the RootHandler (C13) -/
+section Tracker
+variable {Node Approve LargeOctets ChainTracker TxoProof Headers BlockHash Octets : Type}
+
+/-- `RemoveBlock`: without a proof nothing is removed and nothing is persisted (`invalid_argument`); with a proof the block
+    is removed from the node's tracker and **then** the tracker that `remove_block` returned is persisted; a failing
+    `remove_block` (a panic: `expect`) persists nothing -/
+theorem Handler_fn_remove_block (gt : Node → ChainTracker) (ab : ChainTracker → ChainTracker) (pr : LargeOctets → Rs.M TxoProof)
+    (hd : RemoveBlock LargeOctets → Headers) (rb : ChainTracker → TxoProof → Headers → Rs.M ChainTracker)
+    (ps : Node → ChainTracker → Rs.M Unit) (self : RootHandler Node Approve) (m : RemoveBlock LargeOctets) :
+    RootHandler.do_handle__RemoveBlock gt ab pr hd rb ps self m
+      = match m.unspent_proof with
+        | none => .error (.err "Status::invalid_argument")
+        | some prf => pr prf >>= fun p => rb (gt self.node) p (hd m) >>= fun t => ps self.node t >>= fun _ => .ok ⟨⟩ := by
+  unfold RootHandler.do_handle__RemoveBlock
+  cases m.unspent_proof <;> rfl
+
+theorem Handler_fn_remove_block_not_persisted (gt : Node → ChainTracker) (ab : ChainTracker → ChainTracker)
+    (pr : LargeOctets → Rs.M TxoProof) (hd : RemoveBlock LargeOctets → Headers)
+    (rb : ChainTracker → TxoProof → Headers → Rs.M ChainTracker) (ps ps' : Node → ChainTracker → Rs.M Unit)
+    (self : RootHandler Node Approve) (m : RemoveBlock LargeOctets)
+    (h : m.unspent_proof = none ∨ ∃ prf p e, m.unspent_proof = some prf ∧ pr prf = .ok p ∧ rb (gt self.node) p (hd m) = .error e) :
+    RootHandler.do_handle__RemoveBlock gt ab pr hd rb ps self m = RootHandler.do_handle__RemoveBlock gt ab pr hd rb ps' self m := by
+  rw [Handler_fn_remove_block, Handler_fn_remove_block]
+  rcases h with h | ⟨prf, p, e, h1, h2, h3⟩
+  · rw [h]
+  · rw [h1]; simp only [h2, h3, Rs.bind_ok, Rs.bind_err]
+
+/-- `BlockChunk`: the chunk goes to the node's tracker with the message's hash, offset and content; nothing is persisted -/
+theorem Handler_fn_block_chunk (gt : Node → ChainTracker) (o0 : Octets → List Nat)
+    (bc : ChainTracker → BlockHash → Nat → List Nat → Rs.M ChainTracker) (self : RootHandler Node Approve) (m : BlockChunk BlockHash Octets) :
+    RootHandler.do_handle__BlockChunk gt o0 bc self m = bc (gt self.node) m.hash m.offset (o0 m.content) >>= fun _ => .ok ⟨⟩ := rfl
+end Tracker
+
 /-! ### non-vacuity: a concrete core in which the arms run -/
 
 /-- a toy channel: the next holder commitment number; `revoke n` succeeds iff `n` is that number -/
